@@ -151,6 +151,15 @@ def classify(key, leaf, lo=None, hi=None):
         return Alt("array", leaf, lo, hi)
     if t == "string":
         d = leaf.get("description")
+        pat = leaf.get("pattern", "")
+        if d is None and pat:
+            # alternatives without a description are recognised by their pattern
+            if pat.startswith("^\\["):
+                d = "attribute"
+            elif pat.startswith("^\\("):
+                d = "expression"
+            elif pat.startswith("^/"):
+                d = "regex"
         if d == "attribute":
             return Alt("attribute", leaf, lo, hi)
         if d == "expression":
